@@ -320,8 +320,90 @@ def _do_env(b):
     return out
 
 
+def _do_obj(job):
+    """Replay call sequences of spec/EcdsaObj.tla on real Signature objects: before every action what the object reports
+    as its key and digest, and the verdict of every verify call."""
+    from bitcoinlib.keys import sign, Signature, Key, HDKey
+    ds = {1: int(job['keys']['1'], 16), 2: int(job['keys']['2'], 16)}
+    zs = {1: bytes.fromhex(job['zs']['1']), 2: bytes.fromhex(job['zs']['2'])}
+    pubs = {i: ref.ser_point(c13_ec.mul_G(ds[i])) for i in (1, 2)}
+    base, facts = {}, {}
+    for signer in (1, 2):
+        sg = sign(zs[1], Key(job['keys'][str(signer)]))
+        base[signer] = (int(sg.r), int(sg.s), bytes(sg.as_der_encoded()))
+        facts[signer] = [[bool(c13_ec.ecdsa_verify(c13_ec.mul_G(ds[k]), int.from_bytes(zs[z], 'big'), int(sg.r), int(sg.s)))
+                          for z in (1, 2)] for k in (1, 2)]
+
+    def keyarg(i, n):       # the key in one of the forms the API takes
+        return [pubs[i], Key(pubs[i]), HDKey(pubs[i]), ref.ser_point(c13_ec.mul_G(ds[i]), False)][n % 4]
+
+    def zarg(i, n):
+        return [zs[i], zs[i].hex()][n % 2]
+
+    def report(sg):
+        try:
+            pk = sg.public_key
+            pkb = None if pk is None else bytes(pk.public_compressed_byte)
+        except Exception:
+            pkb = b'?'
+        try:
+            tz = sg.txid
+            tzb = None if not tz else (bytes.fromhex(tz) if isinstance(tz, str) else bytes(tz))
+        except Exception:
+            tzb = b'?'
+        pki = 0 if pkb is None else 1 if pkb == pubs[1] else 2 if pkb == pubs[2] else 3
+        tzi = 0 if tzb is None else 1 if tzb == zs[1] else 2 if tzb == zs[2] else 3
+        return pki, tzi
+
+    out = []
+    for n, q in enumerate(job['seqs']):
+        c = q['c']
+        signer = 2 if c == 'init-k1-signed-by-k2' else 1
+        r, s, der = base[signer]
+        try:
+            if c == 'sign':
+                sg = sign(zarg(1, n), Key(job['keys']['1']))
+            elif c == 'rs':
+                sg = Signature(r, s) if n % 2 else Signature.parse_bytes(der)
+            elif c == 'parse-k1':
+                sg = Signature.parse_bytes(der, public_key=keyarg(1, n)) if n % 2 else Signature(r, s, public_key=keyarg(1, n))
+            elif c == 'parse-k2':
+                sg = Signature.parse_bytes(der, public_key=keyarg(2, n)) if n % 2 else Signature(r, s, public_key=keyarg(2, n))
+            else:
+                sg = Signature(r, s, txid=zarg(1, n), public_key=keyarg(1, n))
+        except Exception as e:
+            out.append({'refused': True, 'err': repr(e)[:200]})
+            continue
+        evs = []
+        for j, act in enumerate(q['calls']):
+            pki, tzi = report(sg)
+            ev = {'a': act['a'], 'z': act['z'], 'k': act['k'], 'pk': pki, 'tz': tzi, 'obs': ''}
+            try:
+                if act['a'] == 'verify':
+                    args = {}
+                    if act['z']:
+                        args['txid'] = zarg(act['z'], n + j)
+                    if act['k']:
+                        args['public_key'] = keyarg(act['k'], n + j)
+                    try:
+                        ev['obs'] = 'accept' if sg.verify(**args) is True else 'reject'
+                    except Exception:
+                        ev['obs'] = 'reject'
+                elif act['a'] == 'setkey':
+                    sg.public_key = keyarg(act['k'], n + j)
+                else:
+                    sg.txid = zarg(act['z'], n + j)
+            except Exception as e:
+                ev['err'] = repr(e)[:120]
+            evs.append(ev)
+        out.append({'refused': False, 'events': evs, 'fact': facts[signer]})
+    return out
+
+
 def _job(job):
     t = job['t']
+    if t == 'obj':
+        return _do_obj(job)
     if t == 'env':
         return [_do_env(b) for b in job['behs']]
     if t == 'sign':
@@ -665,6 +747,8 @@ def run(replay=None):
     # ---------------- (M)
     ck.model(common.model_check('MC_Ecdsa', 'MC_Ecdsa_thorough.cfg' if thorough else 'MC_Ecdsa.cfg', workers=8,
                                 expect_actions=['SpecSign', 'BadSign']))
+    ck.model(common.model_check('MC_EcdsaObj', 'MC_EcdsaObj_thorough.cfg' if thorough else 'MC_EcdsaObj.cfg', workers=4,
+                                expect_actions=['Call']))
     ck.model(common.model_check('MC_EcdsaEnv', 'MC_EcdsaEnv_thorough.cfg' if thorough else 'MC_EcdsaEnv.cfg', workers=4,
                                 expect_actions=['Step']))
 
@@ -678,6 +762,7 @@ def run(replay=None):
         sessions = [('replay', case['reqs'])] if case.get('kind') == 'sign' else []
         vcases = [case['vcase']] if case.get('kind') == 'verify' else []
         envs = [case['beh']] if case.get('kind') == 'env' else []
+        objjobs = [case['job']] if case.get('kind') == 'obj' else []
     else:
         sessions = gen_sessions(rng, thorough, zforms)
         vcases = []
@@ -696,10 +781,20 @@ def run(replay=None):
         # the environment of a sign call (EcdsaEnv): TLC enumerates the behaviours
         grecs += [{'k': 'envgen', 'plans': ['random', 'mixed'], 'maxlen': 5 if thorough else 4},
                   {'k': 'envgen', 'plans': ['det', 'explicit'], 'maxlen': 4 if thorough else 3}]
+        # one Signature object as a state machine (EcdsaObj): TLC enumerates the call sequences
+        grecs += [{'k': 'objgen', 'maxlen': 4 if thorough else 3}]
         gout = spread_eval(grecs, PROCS // 2)
         gen, den = gout[:len(bases)], gout[len(bases):len(bases) + len(muts)]
+        oseqs = gout[-1]['seqs']
+        ochunk = (len(oseqs) + PROCS - 1) // PROCS
+        objjobs = []
+        for i in range(0, len(oseqs), ochunk):
+            d1 = rand_scalar(rng)
+            z1 = rand_digest(rng)
+            objjobs.append({'t': 'obj', 'keys': {'1': h32(d1), '2': h32((d1 * 7 + 11) % N or 5)},
+                            'zs': {'1': h32(z1), '2': h32((z1 ^ (1 << rng.randrange(256))))}, 'seqs': oseqs[i:i + ochunk]})
         envs = []
-        for g in gout[len(bases) + len(muts):]:
+        for g in gout[len(bases) + len(muts):-1]:
             for bh in g['behs']:
                 ks = [rng.randrange(1, N) for _ in range(2)]
                 envs.append({'plan': bh['plan'], 'steps': bh['steps'],
@@ -745,7 +840,11 @@ def run(replay=None):
     nver = len(jobs) - len(sessions)
     echunk = max(1, (len(envs) + PROCS - 1) // PROCS)
     jobs += [{'t': 'env', 'behs': envs[i:i + echunk]} for i in range(0, len(envs), echunk)]
+    nenv = len(jobs) - len(sessions) - nver
+    jobs += objjobs
     results = common.pmap(_job, jobs, procs=PROCS)
+    obj_res = results[len(sessions) + nver + nenv:]
+    results = results[:len(sessions) + nver + nenv]
     sign_res = results[:len(sessions)]
     ver_res = [x for chunk_res in results[len(sessions):len(sessions) + nver] for x in chunk_res]
     env_res = [x for chunk_res in results[len(sessions) + nver:] for x in chunk_res]
@@ -824,8 +923,30 @@ def run(replay=None):
                         'r': hb(rr), 's': hb(ss), 'k': hb(kk.zfill(len(kk) + len(kk) % 2)) if st['mode'] == 'explicit' else []})
         erecs.append({'k': 'envtrace', 'events': evs})
         eidx.append((e, klass, obs))
-    allverd = spread_eval(recs + vrecs + erecs, PROCS)
-    verd, vverd, everd = allverd[:len(recs)], allverd[len(recs):len(recs) + len(vrecs)], allverd[len(recs) + len(vrecs):]
+    # call sequences on one Signature object
+    orecs, oidx = [], []
+    for job, res in zip(objjobs, obj_res):
+        for q, o in zip(job['seqs'], res):
+            one = dict(job, seqs=[q])
+            klass = ('obj', q['c'], tuple((a['a'], a['z'], a['k']) for a in q['calls']))
+            if o.get('refused'):
+                ck.case(klass)
+                ck.violation(None, 'Signature object %s: clause construction-refused; %s' % (q['c'], o.get('err')), {'kind': 'obj', 'job': one})
+                continue
+            orecs.append({'k': 'objtrace', 'c': q['c'], 'fact': o['fact'],
+                          'events': [{k: e[k] for k in ('a', 'z', 'k', 'pk', 'tz', 'obs')} for e in o['events']]})
+            oidx.append((one, q, o, klass))
+    allverd = spread_eval(recs + vrecs + erecs + orecs, PROCS)
+    n1, n2, n3 = len(recs), len(recs) + len(vrecs), len(recs) + len(vrecs) + len(erecs)
+    verd, vverd, everd, overd = allverd[:n1], allverd[n1:n2], allverd[n2:n3], allverd[n3:]
+    for (one, q, o, klass), v in zip(oidx, overd):
+        ck.case(klass)
+        for i, fails in enumerate(v['evs']):
+            for f in fails:
+                ck.violation(f['dev'] or None, 'Signature object built by %s, calls %s: clause %s at call %d; object reported key %s digest %s, '
+                             'answered %s, specification expects %s' % (
+                                 q['c'], obj_short(q['calls']), f['v'], i + 1, o['events'][i]['pk'], o['events'][i]['tz'],
+                                 o['events'][i]['obs'] or o['events'][i].get('err'), fmt_exp(f['exp'])), {'kind': 'obj', 'job': one})
     for (e, klass, obs), v in zip(eidx, everd):
         ck.case(klass)
         for i, fails in enumerate(v['evs']):
@@ -878,7 +999,16 @@ def run(replay=None):
     ck.notes['verifier_cases'] = len(vcases)
     ck.notes['verifier_answers_judged'] = len(vrecs)
     ck.notes['environment_behaviours_replayed'] = len(envs)
+    ck.notes['object_call_sequences_replayed'] = len(orecs)
     return ck.finish()
+
+
+def obj_short(calls):
+    def one(a):
+        if a['a'] == 'verify':
+            return 'verify(%s, %s)' % ('z%d' % a['z'] if a['z'] else '-', 'key%d' % a['k'] if a['k'] else '-')
+        return 'public_key=key%d' % a['k'] if a['a'] == 'setkey' else 'txid=z%d' % a['z']
+    return ' ; '.join(one(a) for a in calls)
 
 
 def env_short(e):
